@@ -173,6 +173,37 @@ Section Geom.
         end
     end.
 
+  (* ---- direction: rtl (48-56): the columns run from the right edge of the
+     content box, xr = ContentBoxX() + Width; column 0 is the rightmost one *)
+  Fixpoint column_positions_rtl (xr : Q) (bsx : Q) (widths : list Q) : list Q :=
+    match widths with
+    | [] => []
+    | w :: r => let p := (xr -. bsx) -. w in p :: column_positions_rtl p bsx r
+    end.
+
+  (* 157-161: in a rtl table the x of a cell is the position of the LAST column
+     it spans (GridX + Colspan - 1, Colspan already clipped); the rest as 146-173 *)
+  Definition cell_horizontal_rtl (widths positions : list Q) (bsx : Q) (c : hcell) : res (option (Z * Q * Q * Q)) :=
+    let sw := spanned widths (hc_gridx c) (hc_colspan c) in
+    let cs := Z.of_nat (length sw) in
+    if (cs =? 0)%Z then Ok None
+    else
+      let* x := index 160 positions (hc_gridx c + cs - 1) in
+      let bpp := 0 +. hc_pl c +. hc_pr c +. hc_bl c +. hc_br c in
+      let width := fold_left (fun a w => a +. w) sw (bsx *. of_Z (cs - 1) -. bpp) in
+      Ok (Some (cs, x, width, width +. hc_pl c +. hc_pr c +. hc_bl c +. hc_br c)).
+
+  Fixpoint row_horizontal_rtl (widths positions : list Q) (bsx : Q) (cells : list hcell) : res (list (Z * Q * Q * Q)) :=
+    match cells with
+    | [] => Ok []
+    | c :: r =>
+        let* o := cell_horizontal_rtl widths positions bsx c in
+        match o with
+        | None => Ok []
+        | Some g => let* r' := row_horizontal_rtl widths positions bsx r in Ok (g :: r')
+        end
+    end.
+
   (* ---------------------------------------------------------------- vertical *)
   (* a cell as it comes out of blockContainerLayout: rowspan (clipped by
      wrapTable) and border-box height *)
